@@ -366,6 +366,18 @@ class C15(Check):
                 if d:
                     V('L-torn', 'silent', 'template-changed', f'failed save of generation {g} changed the template: {d[:300]}')
                     break
+                if os.path.exists(path):
+                    # whatever the failed save left on the store: loading it either fails loudly or yields the model -
+                    # never something else
+                    clear_frontend_caches()
+                    try:
+                        torn = CircuitTemplate.from_yaml(f'gen{g}/{name}')
+                        obsv.submit(snapshot(torn), 'obs_both')
+                        jobs.append(('torn', g))
+                        bump('torn_file_loaded')
+                    except Exception:
+                        bump('torn_file_refused')
+                    clear_frontend_caches()
                 # the store now may hold a torn file under that name: retry under the same name (overwrite)
             try:
                 cur.to_yaml(path)
@@ -410,6 +422,12 @@ class C15(Check):
             return res
         for g, s in zip(jobs, snaps[1:]):
             d = observe.diff(s, base, rtol=1e-12)
+            if d and isinstance(g, tuple) and g[0] == 'torn':
+                if s['scalar'].get('status') != 'ok':
+                    continue          # the torn file loads but does not compile: a loud failure, acceptable
+                V('L-torn', 'silent', 'garbage-loaded', f'the file left by the failed save of generation {g[1]} loads as a '
+                                                        f'different model: {d[:300]}')
+                return res
             if d and isinstance(g, tuple):
                 V('L-restart', 'silent', 'reload-after-clear',
                   f'after modifying the loaded template in place, {trace["restart"]["how"]} and loading generation {g[1]} again, '
